@@ -69,6 +69,10 @@ type TxnResult struct {
 	// NegativeZero: a real mutation produced -0.0 (outside the generated domain: JSON and
 	// Go's gob, used for multi-column index values, distinguish it from 0.0; OVSDB does not).
 	NegativeZero bool `json:"negativeZero,omitempty"`
+	// CrossTableDangling: some reference (before pruning) names a uuid that is not a row of
+	// the table it refers to after the transaction but is a row of another table - the
+	// shape of the known finding cross-table-uuid (outcome depends on map order).
+	CrossTableDangling bool `json:"crossTableDangling,omitempty"`
 }
 
 // Exec runs a transaction against state st (which is not modified). assigned
@@ -482,6 +486,7 @@ func Exec(s kit.Schema, st kit.State, ops []kit.Op, assigned func(i int) string)
 
 	// transient duplicates (for C06 labels): any index duplicate before GC is not final
 	post, gc, pruned, causes, detail, may := Commit(s, st, work)
+	res.CrossTableDangling = crossTableDangling(s, st, work, post)
 	res.GCDeleted, res.WeakPruned = gc, pruned
 	res.CommitMayReject = may
 	if len(causes) > 0 {
@@ -494,6 +499,39 @@ func Exec(s kit.Schema, st kit.State, ops []kit.Op, assigned func(i int) string)
 	res.Post = post
 	res.Committed = true
 	return res
+}
+
+// crossTableDangling: see TxnResult.CrossTableDangling.
+func crossTableDangling(s kit.Schema, states ...kit.State) bool {
+	post := states[len(states)-1]
+	elsewhere := func(table, u string) bool {
+		for _, st := range states {
+			for tn, rows := range st {
+				if tn == table {
+					continue
+				}
+				if _, ok := rows[u]; ok {
+					return true
+				}
+			}
+		}
+		return false
+	}
+	for _, st := range states {
+		for ti := range s.Tables {
+			t := &s.Tables[ti]
+			for _, site := range refSites(t) {
+				for _, row := range st[t.Name] {
+					for _, to := range siteTargets(site, row) {
+						if _, ok := post[site.ref.Table][to]; !ok && elsewhere(site.ref.Table, to) {
+							return true
+						}
+					}
+				}
+			}
+		}
+	}
+	return false
 }
 
 func failAll(res TxnResult, st kit.State, class, detail string) TxnResult {
